@@ -215,12 +215,16 @@ func rewrite(fset *token.FileSet, f *ast.File, info *types.Info, rel string, dat
 			eds = append(eds, edit{off: off(im.Path.Pos()), del: len(im.Path.Value), text: t})
 		}
 	}
-	ast.Inspect(f, func(n ast.Node) bool {
-		if g, ok := n.(*ast.GoStmt); ok {
-			fail("%s:%d: go statement in the code under test; goroutines outside the simulator cannot be scheduled", rel, fset.Position(g.Pos()).Line)
-		}
-		return true
-	})
+	// goroutines started by the LIBRARY could not be scheduled by the simulator; the command-line tool (package main and
+	// package file, which the simulated engines never call) may start as many as it likes: it is checked as a real process
+	if f.Name.Name != "main" && !strings.HasPrefix(rel, "file/") {
+		ast.Inspect(f, func(n ast.Node) bool {
+			if g, ok := n.(*ast.GoStmt); ok {
+				fail("%s:%d: go statement in the library under test; goroutines outside the simulator cannot be scheduled", rel, fset.Position(g.Pos()).Line)
+			}
+			return true
+		})
+	}
 	if maps {
 		n := 0
 		ast.Inspect(f, func(node ast.Node) bool {
